@@ -369,6 +369,18 @@ func (self *Analyzer) letStatement(node pAst.LetStatement, isGlobal bool) ast.An
 		varType = ast.NewUnknownType()
 	}
 
+	// a global of the name of a function of this module: the backends would not agree on which of the two a mention means
+	if isGlobal {
+		if prevFn, exists := self.currentModule.getFunc(node.Ident.Ident()); exists {
+			self.error(
+				fmt.Sprintf("Global '%s' has the name of a function of this module", node.Ident.Ident()),
+				make([]string, 0),
+				node.Ident.Span(),
+			)
+			self.hint(fmt.Sprintf("Function '%s' defined here", node.Ident.Ident()), nil, (*prevFn).FnType.(normalFunction).Ident.Span())
+		}
+	}
+
 	// `force-add` is desired here, the variable should be shadowed
 	if prev := self.currentModule.addVar(node.Ident.Ident(), NewVar(varType, node.Ident.Span(), NormalVariableOriginKind, node.IsPub), true); prev != nil {
 		if isGlobal {
